@@ -6,6 +6,7 @@
 mod abs;
 mod flat;
 mod lex;
+mod meta;
 
 use std::collections::BTreeMap;
 use std::io::{BufRead, Write};
@@ -226,13 +227,32 @@ fn apply_run(base: &Components, run: &Value) -> Components {
         let values: Vec<f32> = d.iter().map(|x| x.as_f64().unwrap_or(0.0) as f32).collect();
         // an increment of another length than the building's time layout is not a valid transform
         if c.data.first().map(|e| e.num_steps()) == Some(values.len()) {
-        c.data.push(Energy::Prod(EProd {
-            id: 0,
-            source: ProdSource::EL_INSITU,
-            values,
-            comment: "extra PV".into(),
-        }));
+            if run.get("via").and_then(|x| x.as_str()) == Some("text") {
+                // the way a user does it: one more PRODUCCION line in the components file, with the id of the
+                // photovoltaic system the building already has (0 without one), and the file read again
+                let id = c.data.iter().find_map(|e| match e {
+                    Energy::Prod(p) if p.source == ProdSource::EL_INSITU => Some(p.id),
+                    _ => None,
+                }).unwrap_or(0);
+                let line = format!("{}, PRODUCCION, EL_INSITU, {}", id, values.iter().map(|x| format!("{:.2}", x)).collect::<Vec<_>>().join(", "));
+                let text = format!("{}\n{}\n", c, line);
+                if let Ok(Ok(c2)) = catch_unwind(AssertUnwindSafe(|| text.parse::<Components>())) {
+                    c = c2;
+                }
+            } else {
+                c.data.push(Energy::Prod(EProd {
+                    id: 0,
+                    source: ProdSource::EL_INSITU,
+                    values,
+                    comment: "extra PV".into(),
+                }));
+            }
         }
+    }
+    // the list of components in the opposite order (energy_performance takes any list; its result does not
+    // depend on the order of the list)
+    if run.get("rev").and_then(|x| x.as_bool()) == Some(true) {
+        c.data.reverse();
     }
     c
 }
@@ -991,8 +1011,10 @@ fn main() {
                         let maxf = ep.wfactors.wdata.iter().fold(1.0f64, |m, f| m.max(f.ren.abs() as f64).max(f.nren.abs() as f64));
                         let sum_in: f64 = ac.iter().filter(|c| c.kind != "OUT").map(|c| c.v.iter().map(|x| x.abs()).sum::<f64>()).sum();
                         let mut s = (sum_in * maxf).max(1.0);
-                        let mut p = exponent(s);
-                        let mut pm = exponent(s / (ep.arearef as f64).max(1e-9));
+                        // the document states its numbers with three decimals: a logging unit finer than that would
+                        // count the rounding of the document as a difference
+                        let mut p = exponent(s).min(3);
+                        let mut pm = exponent(s / (ep.arearef as f64).max(1e-9)).min(3);
                         match &forced {
                             Some((case, fp, fpm, fs)) if *case == c["case"] => {
                                 p = *fp;
@@ -1076,6 +1098,28 @@ fn main() {
                     None => json!({"present": false}),
                 };
                 writeln!(out, "{}", ev).ok();
+            }
+        }
+        "meta" => {
+            // behaviours of spec/MetaStore.tla on the real Components / Factors metadata
+            for line in stdin.lock().lines() {
+                let line = match line {
+                    Ok(l) => l,
+                    Err(_) => break,
+                };
+                if line.trim().is_empty() {
+                    continue;
+                }
+                match serde_json::from_str::<Value>(&line) {
+                    Ok(case) => {
+                        meta::meta_case(&case, &mut out);
+                        mark(&case, &mut out);
+                    }
+                    Err(e) => {
+                        eprintln!("harness: bad case line: {}", e);
+                        std::process::exit(2);
+                    }
+                }
             }
         }
         "fault" => {
